@@ -384,6 +384,12 @@ def main(tier, replay):
                 for kind, path, mp in mutations(base["parameters"]):
                     # a mutated client id stays as mutated (it is then an unknown/ill-typed id)
                     work.append((k, kind, path, dict(base, parameters=mp), "keep" if path[:1] == ("client_id",) else "own"))
+                    # the same deviation wrapped in harmless noise: unknown members (accepted on
+                    # their own, see the negative controls) in every object, named so that they
+                    # sort before / after the real members
+                    if path[:1] != ("client_id",) and kind != "key-added" and isinstance(mp, dict):
+                        for nm in ("aaa_extra", "zzz_extra"):
+                            work.append((k, kind + "+unknown-members-" + nm[:3], path, dict(base, parameters=with_extras(mp, nm)), "own"))
                 # parameters missing / retyped as a whole
                 r = {x: y for x, y in base.items() if x != "parameters"}
                 work.append((k, "parameters-removed", (), r, "keep"))
@@ -482,6 +488,20 @@ def main(tier, replay):
         return ctx.finish(500 if tier == "quick" else 4000)
     finally:
         srv.stop()
+
+
+def with_extras(v, name):
+    """a copy of the parameters with an unknown member `name` in every object (not inside
+    `map` / `set` / `stringset` / `dictionary`, whose members are data)"""
+    if isinstance(v, dict):
+        out = {}
+        for k, x in v.items():
+            out[k] = x if k in ("map", "set", "stringset", "dictionary") else with_extras(x, name)
+        out[name] = 0
+        return out
+    if isinstance(v, list):
+        return [with_extras(x, name) for x in v]
+    return v
 
 
 def one_fault(ctx, srv, k, req, kind, path, id_mode="own", lock=None, replay=False):
